@@ -323,7 +323,7 @@ Ltac solve_notif c s Hs k0 :=
 Lemma recv_notif : forall c k s, w_shut (ws s) = false -> is_builtin_call k = true -> req_id k = None ->
     delivery c k s (recv c k s).
 Proof.
-  intros c k s Hs Hb Hq. destruct k; try discriminate.
+  intros c k s Hs Hb Hq. destruct k as [| | | | | | | | | | |nb ver cell txt|nb ver|nb cell]; try discriminate.
   - solve_notif c s Hs CInitialized.
   - solve_notif c s Hs (CDidOpen u ver txt).
   - solve_notif c s Hs (CDidChange u ver txts).
@@ -331,6 +331,9 @@ Proof.
   - solve_notif c s Hs (CFolders added removed).
   - solve_notif c s Hs (CSetTrace v).
   - solve_notif c s Hs (CProgressCancel tok).
+  - solve_notif c s Hs (CNbOpen nb ver cell txt).
+  - solve_notif c s Hs (CNbChange nb ver).
+  - solve_notif c s Hs (CNbClose nb cell).
 Qed.
 
 Lemma recv_exec : forall c i cmd a s, w_shut (ws s) = false ->
@@ -369,6 +372,9 @@ Proof.
   - apply recv_exec, Hs.
   - apply recv_notif; auto.
   - apply recv_other, Hs.
+  - apply recv_notif; auto.
+  - apply recv_notif; auto.
+  - apply recv_notif; auto.
 Qed.
 
 (* handle_message's gate: once `shutdown` has been handled nothing is delivered any more *)
@@ -1008,7 +1014,7 @@ Theorem plan_facts : forall c w n k p, In p (plan c w n k) ->
     end.
 Proof.
   intros c w n k p H. cbv zeta. split; [eapply plan_msg; exact H|]. unfold plan in H.
-  destruct k as [i fs| |u ver txt|u ver txts|u|ad rm|v|i|i cmd a|tok|req nm v];
+  destruct k as [i fs| |u ver txt|u ver txts|u|ad rm|v|i|i cmd a|tok|req nm v|nb ver cell txt|nb ver|nb cell];
     try (destruct (ws_effect _ _ w); [|contradiction]; apply user_plan_facts in H; destruct H as (e & -> & H);
          known_isb c; unfold registered, p_fut; cbn [p_inv p_cb i_part i_meth i_entry i_args bargs negb andb];
          rewrite H; auto; fail).
@@ -1705,7 +1711,7 @@ Theorem builtin_reply_kept : forall c k i s, w_shut (ws s) = false ->
     out (recv c k s) = out (mid k s) ++ [OResult i (result_of k)].
 Proof.
   intros c k i s Hs Hb He Hi Hok. unfold recv. rewrite Hs, Hi. unfold handle_request. rewrite (get_handler_builtin c _ _ Hb).
-  destruct k as [i' fs| | | | | | |i'| | |q nm v]; try discriminate; cbn [req_id] in Hi; inversion Hi; subst; cbv zeta; unfold builtin_body; cbv beta iota.
+  destruct k as [i' fs| | | | | | |i'| | |q nm v| | |]; try discriminate; cbn [req_id] in Hi; inversion Hi; subst; cbv zeta; unfold builtin_body; cbv beta iota.
   - change (ws (log_builtin (nmsg s) (CInitialize i fs) [ACall (CInitialize i fs)] (set_nmsg (S (nmsg s)) s))) with (ws s).
     unfold builtin_ok in Hok. destruct (ws_effect (c_tokens c) (CInitialize i fs) (ws s)); [|discriminate].
     unfold add_out at 1. cbn [out set_out]. rewrite out_chain. reflexivity.
